@@ -1078,7 +1078,7 @@ func lemmaLastEncodePrefix(opts []Option, o Option, i int) {
 //@   ensures readerr [C14]: rg.scanner.failed ==> result1 != nil
 //@   ensures consumed [C02]: result1 == nil ==> rg.scanner.pos == len(rg.scanner.lines) && !rg.scanner.failed
 //@   ensures nilres [C12]: result1 != nil ==> len(result0) == 0 || rg.scanner.failed
-//@   ensures readerr2 [C14]: rg.scanner.failed ==> result1 == rg.scanner.err
+//@   ensures readerr2 [C14]: rg.scanner.failed ==> result1 != nil && errIs(result1, rg.scanner.err)
 //@   ensures blankonly [C12,C15]: (forall j int :: {rg.scanner.lines[j]} 0 <= j && j < len(rg.scanner.lines) ==> md.allSpace(rg.scanner.lines[j])) ==> len(result0) == 0 && (result1 != nil ==> rg.scanner.failed) && (forall q *Node :: {q.children} q.children == old(q.children))
 //@   ensures lines [C02]: result1 == nil ==> len(lnNodes) == len(rg.scanner.lines) && (forall j int :: {lnNodes[j]} 0 <= j && j < len(rg.scanner.lines) ==> (md.allSpace(rg.scanner.lines[j]) ==> lnNodes[j] == nil) && (!md.allSpace(rg.scanner.lines[j]) ==> lineRepr(rg.scanner.lines[j], lnNodes[j]) && (lnNodes[j].hierarchy == 1 ==> contains(result0, lnNodes[j]))))
 //@ loop gtree.rootGeneratorSimple.generate#1
@@ -1220,7 +1220,7 @@ func lemmaRawAllIsRenderAll(last, mid branchFormat, roots []*Node, i int) {
 //@   refines grownStream with gsRoots=rsRoots, gsFailed=rsFailed, gsStopped=rsStopped, gsErr=rsErr
 //@   requires live [C12,C14]: !rsFailed && !rsStopped
 //@   requires nonnil [C12]: e == nil ==> n != nil && n.hierarchy == 1
-//@   requires readerr [C14]: rg != nil && rg.scanner != nil && rg.scanner.failed ==> e == rg.scanner.err
+//@   requires readerr [C14]: rg != nil && rg.scanner != nil && rg.scanner.failed ==> e != nil && errIs(e, rg.scanner.err)
 //@   records rsRoots := e == nil ? rsRoots ++ seqof(n) : rsRoots
 //@   records rsFailed := rsFailed || e != nil
 //@   records rsErr := e
@@ -1239,7 +1239,7 @@ func lemmaRawAllIsRenderAll(last, mid branchFormat, roots []*Node, i int) {
 //@   requires nonnil [C12]: e == nil ==> n != nil && n.hierarchy == 1
 //@   requires grown [C01]: e == nil && g != nil ==> grown(g.lastNodeFormat, g.intermedialNodeFormat, n)
 //@   requires valid [C07,C09]: e == nil && g != nil && g.enabledValidation ==> validated(n)
-//@   requires fwd [C14]: g != nil && rsFailed ==> e == rsErr
+//@   requires fwd [C14]: g != nil && rsFailed ==> errIs(e, rsErr)
 //@   records gsRoots := e == nil ? gsRoots ++ seqof(n) : gsRoots
 //@   records gsFailed := gsFailed || e != nil
 //@   records gsErr := e
@@ -1253,7 +1253,7 @@ func lemmaRawAllIsRenderAll(last, mid branchFormat, roots []*Node, i int) {
 //@   subject sp, w, g *defaultGrowerSimple
 //@   requires once [C14,C12]: !esFailed
 //@   requires err [C14]: e != nil
-//@   requires fwd [C14]: (!isType(sp, formattedSpreaderSimple) && gsFailed ==> e == gsErr) && (isType(sp, formattedSpreaderSimple) && rsFailed ==> e == rsErr)
+//@   requires fwd [C14]: (!isType(sp, formattedSpreaderSimple) && gsFailed ==> errIs(e, gsErr)) && (isType(sp, formattedSpreaderSimple) && rsFailed ==> errIs(e, rsErr))
 //@   records esFailed := true
 //@   tracks spRoots, spText
 //@   modifies nothing
